@@ -1518,14 +1518,13 @@ class TaskScenario(ScenarioData):
             if n_end is None or child_end > n_end:
                 n_end = child_end
 
-        # Set the container dates
-        current_start = self.property.get("start", self.scenarioIdx)
-        current_end = self.property.get("end", self.scenarioIdx)
-
-        if n_start and (current_start is None or current_start > n_start):
+        # Set the container dates: a container spans exactly its children, whatever dates it carried
+        # before (same rule as Project._updateContainerTaskStatus, which closes the containers that
+        # complete while scheduling is still running)
+        if n_start:
             self.property[("start", self.scenarioIdx)] = n_start
 
-        if n_end and (current_end is None or current_end < n_end):
+        if n_end:
             self.property[("end", self.scenarioIdx)] = n_end
 
         if n_start and n_end:
